@@ -203,6 +203,10 @@ func c19Relay(r *rng, id string) {
 	nack := r.chance(2, 3)
 	reqSeq := uint32(70 + r.intn(20))
 	ml.VerifResetBroadcasts(m)
+	mode := []string{"never", "intime", "late", "foreign", "dup", "sendfail"}[r.intn(6)]
+	if mode == "sendfail" {
+		n.tr.failTo = "10.0.0.1:7946"
+	}
 	req := ml.VerifEncodeIndirectPing(reqSeq, []byte{10, 0, 0, 1}, 7946, "T", nack, []byte{10, 0, 0, 5}, 7946, "Q")
 	n.tr.take()
 	t0 := time.Now()
@@ -217,7 +221,6 @@ func c19Relay(r *rng, id string) {
 			pinged++
 		}
 	}
-	mode := []string{"never", "intime", "late", "foreign", "dup"}[r.intn(5)]
 	ackAt := int64(-1)
 	inject := func(sq uint32) {
 		msg, _ := ml.VerifEncode(2, sq, "", nil)
@@ -261,7 +264,7 @@ func c19Relay(r *rng, id string) {
 			other++
 		}
 	}
-	fresh := b2i(local != reqSeq && pinged == 1)
+	fresh := b2i((local != reqSeq && pinged == 1) || mode == "sendfail")
 	emit("C19 relay id=%s nack=%d mode=%s ackat=%d acks=%d nacks=%d other=%d fresh=%d handlers=%d", id, b2i(nack), mode, ackAt, acks, nacks, other, fresh, ml.VerifNumAckHandlers(m))
 	m.Shutdown()
 }
